@@ -98,6 +98,9 @@ fn positions(seed: &[u8], opts: &PlanOpts) -> Vec<usize> {
             }
             12 + 16 * f.dir.len()
         }
+        // WOFF / WOFF2: the header, the (variable length) table directory and, for collections, the collection
+        // directory all sit in the first few hundred bytes
+        None if seed.len() >= 4 && (&seed[..4] == b"wOF2" || &seed[..4] == b"wOFF") => 320.min(seed.len()),
         None => 64.min(seed.len()),
     };
     for p in 0..dir_end.min(seed.len()).max(64.min(seed.len())) {
